@@ -728,4 +728,41 @@ theorem perturbations_are_call_points (sp : Option Space) (x : Vec) (s : Step) (
   · rfl
   · simp [fdSteps, fdPerts, fdGenerate]
 
+/-! ### Non-vacuity of the bound-safety and order theorems on concrete data -/
+
+/-- A point within one step of its upper bound, a subset in reverse order: all the hypotheses of
+    `fd_calls_within_upper_bounds` hold, and the backward step is taken for component 1. -/
+example :
+    (∀ p ∈ fdCalls (some ⟨[some 0, some 0], [some 1, some 2], false⟩) [1, 2 - 1/8] (.scalar (1/4)) [1, 0],
+      ∀ j u, (⟨[some 0, some 0], [some 1, some 2], false⟩ : Space).ubW j = some u → getR p j ≤ u) ∧
+    fdStep (some ⟨[some 0, some 0], [some 1, some 2], false⟩) [1, 2 - 1/8] (.scalar (1/4)) 1 = -(1/4) := by
+  constructor
+  · apply fd_calls_within_upper_bounds
+    intro j u h
+    match j with
+    | 0 => simp [Space.ubW, Space.isNorm] at h; subst h; decide +kernel
+    | 1 => simp [Space.ubW, Space.isNorm] at h; subst h; decide +kernel
+    | j + 2 => simp [Space.ubW, Space.isNorm] at h
+  · decide +kernel
+
+example : |(((1 : ℝ) + 1 / 4) ^ 3 - (1 - 1 / 4) ^ 3) / (2 * (1 / 4)) - 3 * 1 ^ 2|
+    ≤ (1 / 4 : ℝ) ^ 2 / 6 * 6 := by norm_num
+
+open Set in
+/-- The hypotheses of `cd_second_order` are satisfiable (cubic, `M = 6`). -/
+example : |((fun t : ℝ => t ^ 3) (1 + 1 / 4) - (fun t : ℝ => t ^ 3) (1 - 1 / 4)) / (2 * (1 / 4))
+      - (fun t : ℝ => 3 * t ^ 2) 1| ≤ (1 / 4 : ℝ) ^ 2 / 6 * 6 :=
+  cd_second_order (f := fun t => t ^ 3) (f' := fun t => 3 * t ^ 2) (f'' := fun t => 6 * t)
+    (f''' := fun _ => 6) (by norm_num)
+    (fun t _ => by simpa using hasDerivAt_pow 3 t)
+    (fun t _ => by
+      have := (hasDerivAt_pow 2 t).const_mul 3
+      refine this.congr_deriv ?_
+      norm_num
+      ring)
+    (fun t _ => by
+      have := (hasDerivAt_id t).const_mul 6
+      simpa using this)
+    (fun t _ => by norm_num)
+
 end GV.C16
